@@ -248,6 +248,10 @@ class Engine:
         for k in self.known:
             if k.get("case") is not None:
                 cases.append(("known/" + k["id"], k["case"]))
+        for k in load_known("fixed_cases"):
+            # failing inputs of repaired defects stay in the corpus: a regression is reported again
+            if k.get("case") is not None and str(k.get("id", "")).startswith(p.id):
+                cases.append(("fixed/" + k["id"], k["case"]))
         exhaustive_done = False
         if tier == "thorough":
             ex = p.exhaustive(tier)
@@ -404,7 +408,7 @@ class Engine:
         return None
 
 
-def load_known():
+def load_known(section="findings"):
     """known_findings.json (index) + known/*.json (per property); committed, never written at run time"""
     out = []
     paths = [os.path.join(VERIF, "known_findings.json")]
@@ -414,7 +418,7 @@ def load_known():
     for path in paths:
         if os.path.exists(path):
             with open(path, encoding="utf-8") as f:
-                out += json.load(f).get("findings", [])
+                out += json.load(f).get(section, [])
     return out
 
 
